@@ -46,7 +46,9 @@ PolsFor(o) == IF o.op \in DigestReads THEN Policies ELSE {"seq"}
 FaultsFor(o) == IF o.op \in Lists THEN [{0, 1} -> ListFaults] ELSE {[i \in {0, 1} |-> NoFault]}
 
 \* a member failing by itself: the replicated writes, either member
-FaultedWrites == {"PushBlob", "PushManifest", "MountBlob", "DeleteBlob", "DeleteManifest", "DeleteTag"}
+FaultedWrites == {"PushBlob", "PushManifest", "MountBlob", "DeleteBlob", "DeleteManifest", "DeleteTag",
+                  \* one call of one member's upload writer (the caller may repeat the call)
+                  "Write", "Close", "Commit", "Cancel"}
 WFsFor(o) == IF WriteFaults /\ o.op \in FaultedWrites
              THEN {NoWF, [i \in {0, 1} |-> i = 0], [i \in {0, 1} |-> i = 1]} ELSE {NoWF}
 
@@ -64,7 +66,7 @@ UnifierOpsRepl == ReadOpsSet \cup ContentWrites(MTs) \cup BadPushes \cup UploadO
 NextRepl ==
   /\ depth < Depth
   /\ \E o \in UnifierOpsRepl : \E p \in PolsFor(o) : \E f \in FaultsFor(o) :
-        /\ ViaUnifier(o, p, f)
+        /\ \E w \in WFsFor(o) : ViaUnifierWF(o, p, f, w)
         \* reads do not count towards the depth (they change nothing)
         /\ depth' = IF o.op \in ReadOps THEN depth ELSE depth + 1
 SpecRepl == MCInit /\ [][NextRepl]_mcvars
